@@ -131,6 +131,8 @@ func (ap *AttestationPool) AddAttestation(ctx context.Context, att *phase0.Attes
 			// this aggregate adds additional participants compared to the total we had before, keep it!
 			existing.Aggregates = append(existing.Aggregates,
 				Aggregate{Participants: att.AggregationBits, Sig: att.Signature})
+			// keep Participants the OR of all stored aggregates (same byte length: Covers checked it)
+			existing.Participants.Or(att.AggregationBits)
 
 			// remember the participants attested this epoch
 			key := Assignment{Index: 0, Epoch: att.Data.Target.Epoch}
